@@ -8,10 +8,12 @@ Input : [debug, [step, ...]]
                  , [op, ...]              what f does, in order: ['later', delay, act] | ['now', act]
                  , term]                  ['ret', v] | ['raise', e] | 'deferred' (f returns the scenario's Deferred)
        | 'clear'                          spinner.clear_junk()
+       | ['setsig', s, h]                 between two calls the process installs handler h for SIGNALS[s]
+  T    = n | 'neg'                        'neg': a negative timeout - reactor.callLater raises, run() raises before its try/finally
   act  = ['fire', v] | ['fail', e] | 'stop' | 'noop' | 'addsel' | ['setsig', s, h] | ['reenter', fresh]
 Trace : [obs, ...]   (see TTV/Drv/C15.lean)
   obs  = ['run', result, events, reentries, junk, pending, sels, running, stopRestored, sigBefore, sigAfter, elapsed]
-       | ['cleared', junk]
+       | ['cleared', junk] | ['sigs', handlers now]
 Labels: the i-th `pre` call has label i, the j-th operation of f has label len(pre)+j, the spinner's own
 timeout call is `timeout`.
 """
@@ -42,25 +44,32 @@ class C15(Prop):
     id = 'C15'
     budgets = {'quick': 4000, 'thorough': 150000}
     time_limit = {'quick': 40, 'thorough': 600}
-    rule = ('histories of 1-4 steps (spinner.run scenario | clear_junk) on one virtual-time reactor and one Spinner: f returns / raises / '
+    rule = ('histories of 1-4 runs (steps: spinner.run scenario | clear_junk | the process installs a signal handler) on one virtual-time '
+            'reactor and one Spinner: f returns / raises / '
             'returns a Deferred; 0-3 delayed calls scheduled before run() and 0-5 operations inside f (delayed or immediate: fire, fail, '
             'reactor.stop, noop, register selectable, install signal handler, re-entrant Spinner.run), delays and timeout in 0..6 so that '
             'ties between firing, timeout and stop are frequent; thorough adds the full grid term x (fire|fail at 1,2,3 before/inside f or '
             'at once) x (stop at 1,2,3 before/inside f or at once) x order x 0-2 leftovers with timeout 2, and two-run histories with and '
             'without clear_junk. non-trivial = some run is not refused and has a Deferred-returning f with at least one delayed fire/fail/stop, '
-            'or the history has a refused run; distinct = distinct input S-expression. 12 scenarios on the REAL Twisted reactor (feature '
-            'reactor:real) come first in the thorough enumeration, 5 of them are part of every quick run')
+            'or the history has a refused or rejected run; distinct = distinct input S-expression. A quarter of the random histories is about '
+            'the signal handlers: 2-5 runs on the one Spinner, 40% of them with a negative timeout (reactor.callLater raises, run() raises '
+            'before its try/finally), the process installing handlers (4 signals x 4 handler tokens) between the calls, 85% clear_junk; '
+            'thorough adds (signal x handler) x rejected call x (signal x handler) x 6 kinds of next run. 13 scenarios on the REAL Twisted '
+            'reactor (feature reactor:real) come first in the thorough enumeration, 5 of them are part of every quick run')
     assumptions = [
         'the reactor loop, DelayedCall ordering/cancellation and Deferred callback chaining (twisted) are modelled (TTV/Model/Reactor.lean), '
         'not verified; the correspondence runs on harness/vreactor.py (a twisted Clock with the iteration semantics of '
         'ReactorBase.runUntilCurrent) except for the real-reactor scenarios',
-        'REAL reactor: 12 smoke scenarios (sync return, sync raise, fires / fails well before the timeout, never fires, stop requested, '
+        'REAL reactor: 13 smoke scenarios (sync return, sync raise, fires / fails well before the timeout, never fires, stop requested, '
         'leftover junk cancelled and reported, re-entrant run refused, stale junk refused, signal handlers and reactor.stop restored, call '
-        'scheduled before run, fires after the timeout) run on twisted.internet.reactor, spun repeatedly (crash, never stop), with 40 ms '
+        'scheduled before run, fires after the timeout, rejected timeout then handlers changed then an ordinary run) run on '
+        'twisted.internet.reactor, spun repeatedly (crash, never stop), with 40 ms '
         'per time unit and distinct instants at least 2 units apart; an executed call is reported at its nominal delay, a run in which some '
         'call was more than 0.9 unit late is repeated with a doubled unit (at most 3 times); the trace (order of the executed calls, '
         'result, junk, what is left in the reactor, signal handlers) is compared with the model exactly as for the virtual reactor; the '
-        'process is left clean (no delayed calls, readers, writers; reactor not running). 5 scenarios in quick, all 12 in thorough',
+        'process is left clean (no delayed calls, readers, writers; reactor not running). 5 scenarios in quick, all 13 in thorough',
+        'invalid timeouts: only negative ones are generated (ReactorBase.callLater asserts delay >= 0; harness/vreactor.py asserts the '
+        'same); None / str timeouts (TypeError out of callLater) take the same path through Spinner.run and are not generated',
         'the Spinner model has no parameter for the obligatory shake-out iterations of _clean (_OBLIGATORY_REACTOR_ITERATIONS = 0 for the '
         'plain Spinner; the model decides the result when the loop ends and then collects the junk): their interplay with the result is '
         'covered by C14 (broken-Twisted variant), not here',
@@ -75,14 +84,18 @@ class C15(Prop):
                 'model of Spinner.run on a Clock-like reactor returns/raises exactly the declarative expected result - the function\'s own value or '
                 'exception, TimeoutError, NoResultError - decided by the first of "Deferred fires/fails" and "timeout call" in the reactor\'s call '
                 'order (time, scheduling order), unless a stop is due strictly earlier (ties at the timeout instant proved in both directions); '
-                'StaleJunkError iff junk is uncleared and ReentryError for every nested call, both without any other change; after every run '
+                'StaleJunkError iff junk is uncleared and ReentryError for every nested call, both without any other change; a timeout the '
+                'reactor rejects makes run raise what callLater raised with nothing changed but the spinner\'s own _saved_signals; whenever '
+                'run returns or raises - also then, and whatever an earlier call left in _saved_signals or the process installed in between '
+                '- the SIGINT/SIGTERM/SIGCHLD handlers are what they were immediately before THAT call (per call, and by induction over '
+                'the history of calls, clear_junk and handler installations on one Spinner); after every run '
                 'the reactor is not running, has no delayed calls or selectables, reactor.stop and SIGINT/SIGTERM/SIGCHLD handlers are restored, '
                 'the junk is exactly the leftovers, the run lasts at most the timeout and its loop ends by a crash. The hand-written model is tied '
-                'to the real Spinner by a differential check on a virtual-time reactor (random histories + exhaustive timing grid), by 12 smoke '
+                'to the real Spinner by a differential check on a virtual-time reactor (random histories + exhaustive timing grid), by 13 smoke '
                 'scenarios on the real Twisted reactor and by the extracted _PRESERVED_SIGNALS table.',
         'note': 'trusted: Lean kernel, the models TTV/Model/Reactor.lean + Spinner.lean, the harness and harness/vreactor.py; the Twisted reactor '
                 'loop, DelayedCall, Deferred chaining and the signal module are modelled, not verified; real-reactor coverage = 12 smoke scenarios '
-                '(feature reactor:real: 5 per quick run, 12 per thorough run), everything else on the virtual-time reactor; the thread-pool '
+                '(feature reactor:real: 5 per quick run, 13 per thorough run), everything else on the virtual-time reactor; the thread-pool '
                 'path of _clean is not exercised',
         'technique': 'Lean 4 invariant proofs over a discrete-event model (sorted call queue, fuelled reactor loop), executable spec shared with a '
                      'differential correspondence check against the real code on a virtual-time reactor',
@@ -182,7 +195,13 @@ class C15(Prop):
             if step == 'clear':
                 trace.append(['cleared', [jrepr(x) for x in sp.clear_junk()]])
                 continue
+            if step[0] == 'setsig':
+                signal.signal(getattr(signal, SIGNALS[step[1]]), HANDLERS[step[1]][step[2]])
+                trace.append(['sigs', self._cur_sigs()])
+                continue
             _, T, pre, body, term = step
+            bad = T == 'neg'
+            T = 0 if bad else T
             d = defer.Deferred()
             t0 = r.seconds()
             now_events, reentries = [], []
@@ -265,7 +284,7 @@ class C15(Prop):
             real_T[0] = T
             tc_before = sp._timeout_call
             try:
-                x = sp.run(T * scale, f)
+                x = sp.run(-1 if bad else T * scale, f)
                 res = ['value', x] if type(x) is int else ['odd-value', type(x).__name__]
             except S.TimeoutError:
                 res = 'timeout'
@@ -277,6 +296,9 @@ class C15(Prop):
                 res = 'reentry'
             except KeyError as e:
                 res = ['raised', e.args[0]]
+            except AssertionError as e:
+                # what ReactorBase.callLater raises for a negative delay
+                res = 'rejected' if bad and 'is not greater than or equal to 0' in str(e) else ['other', 'AssertionError']
             except Exception as e:
                 res = ['other', type(e).__name__]
             if sp._timeout_call is not tc_before and sp._timeout_call is not None:
@@ -299,7 +321,7 @@ class C15(Prop):
                 del r.errors[:]
             trace.append(obs)
             # the caller tidies up what *it* scheduled if the spinner refused to run (after the observation)
-            if res == 'stalejunk':
+            if res in ('stalejunk', 'rejected'):
                 for dc in r.getDelayedCalls():
                     dc.cancel()
             d.addErrback(lambda failure: None)     # an orphaned failed Deferred shall not log at collection
@@ -328,6 +350,8 @@ class C15(Prop):
                                              ['later', 4, ['fire', 4]]], 'deferred']], False),
         ('scheduled-before-run', [['run', 6, [[2, ['fire', 1]]], [['later', 4, 'noop']], 'deferred'], 'clear'], False),
         ('fires-after-timeout', [['run', 2, [], [['later', 5, ['fire', 9]]], 'deferred'], 'clear'], True),
+        ('rejected-timeout-then-run', [['setsig', 0, 1], ['run', 'neg', [[2, 'noop']], [], ['ret', 0]], ['setsig', 0, 2], ['setsig', 1, 3],
+                                       ['run', 6, [], [['later', 2, ['fire', 5]]], 'deferred']], False),
     ]
 
     def real_inputs(self, quick_only):
@@ -373,9 +397,20 @@ class C15(Prop):
     def gen(self, rng, tier):
         n = rng.choice([1, 1, 1, 2, 2, 3, 4])
         steps = []
+        # a quarter of the histories is about the signal handlers: calls the reactor rejects, the process installing handlers between
+        # the calls, runs whose own actions install handlers
+        sig_mode = rng.random() < 0.25
+        if sig_mode:
+            n = rng.choice([2, 3, 3, 4, 5])
         for _ in range(n):
-            steps.append(self.gen_scen(rng))
-            if rng.random() < 0.75:
+            if sig_mode and rng.random() < 0.6:
+                for _ in range(rng.choice([1, 1, 2])):
+                    steps.append(['setsig', rng.randrange(4), rng.randrange(NH)])
+            sc = self.gen_scen(rng)
+            if rng.random() < (0.4 if sig_mode else 0.04):
+                sc[1] = 'neg'
+            steps.append(sc)
+            if rng.random() < (0.85 if sig_mode else 0.75):
                 steps.append('clear')
         return [rng.random() < 0.2, steps]
 
@@ -418,16 +453,25 @@ class C15(Prop):
             for b in scens[::7]:
                 for clear in (False, True):
                     yield [False, [a] + (['clear'] if clear else []) + [b]]
+        # a rejected call, the process installs handlers, an ordinary run: every signal x handler x kind of second run
+        seconds = [['run', 2, [], [], ['ret', 1]], ['run', 2, [], [['later', 1, ['fire', 2]]], 'deferred'],
+                   ['run', 1, [], [['later', 3, ['fire', 3]]], 'deferred'], ['run', 3, [], [['later', 1, 'stop']], 'deferred'],
+                   ['run', 2, [], [['now', ['setsig', 0, 2]], ['later', 1, ['setsig', 1, 3]], ['later', 2, ['fire', 1]]], 'deferred'],
+                   ['run', 'neg', [[1, 'noop']], [['now', ['setsig', 0, 1]]], 'deferred']]
+        for s0, h0, s1, h1 in itertools.product(range(4), range(NH), range(4), range(NH)):
+            for b in seconds:
+                yield [False, [['setsig', s0, h0], ['run', 'neg', [], [], ['ret', 0]], ['setsig', s1, h1], b, 'clear',
+                               ['run', 1, [], [], ['ret', 5]]]]
 
     # ----- measures
     def _runs(self, inp):
-        return [s for s in inp[1] if s != 'clear']
+        return [s for s in inp[1] if s != 'clear' and s[0] == 'run']
 
     def _acts(self, sc):
         return [a for _, a in sc[2]] + [op[-1] for op in sc[3]]
 
     def nontrivial(self, inp, trace):
-        if isinstance(trace, list) and any(isinstance(o, list) and o[0] == 'run' and o[1] == 'stalejunk' for o in trace):
+        if isinstance(trace, list) and any(isinstance(o, list) and o[0] == 'run' and o[1] in ('stalejunk', 'rejected') for o in trace):
             return True
         for sc in self._runs(inp):
             delayed = [a for _, a in sc[2]] + [op[2] for op in sc[3] if op[0] == 'later']
@@ -437,6 +481,15 @@ class C15(Prop):
 
     def features(self, inp, trace):
         f = ['steps=%d' % len(inp[1]), 'runs=%d' % len(self._runs(inp)), 'reactor:' + ('real' if len(inp) > 2 else 'virtual')]
+        kinds = [s if s == 'clear' else s[0] if s[0] == 'setsig' else 'run-neg' if s[1] == 'neg' else 'run' for s in inp[1]]
+        if 'setsig' in kinds:
+            f.append('process-installs-handler-between-calls')
+        for i, k in enumerate(kinds):
+            if k == 'run-neg' and 'run' in kinds[i + 1:]:
+                f.append('ordinary-run-after-rejected-call')
+                if 'setsig' in kinds[i + 1:][:kinds[i + 1:].index('run')]:
+                    f.append('handler-installed-between-rejected-call-and-run')
+                break
         if inp[0]:
             f.append('debug')
         if not isinstance(trace, list) or (trace and trace[0] == 'raised'):
@@ -445,7 +498,7 @@ class C15(Prop):
             res = o[1]
             f.append('result:' + (res if isinstance(res, str) else res[0]))
             f.append('term:' + (sc[4] if isinstance(sc[4], str) else sc[4][0]))
-            T = sc[1]
+            T = 0 if sc[1] == 'neg' else sc[1]
             delayed = [(d, a, 'pre') for d, a in sc[2]] + [(op[1], op[2], 'body') for op in sc[3] if op[0] == 'later']
             for d, a, where in delayed:
                 k = a if isinstance(a, str) else a[0]
@@ -458,7 +511,7 @@ class C15(Prop):
             for op in sc[3]:
                 if op[0] == 'now':
                     f.append('now:' + (op[1] if isinstance(op[1], str) else op[1][0]))
-            if res != 'stalejunk':
+            if res not in ('stalejunk', 'rejected'):
                 f.append('junk=%s' % min(len(o[4]), 3))
                 f.append('events=%s' % min(len(o[2]), 4))
         return f
@@ -476,9 +529,23 @@ class C15(Prop):
         for i, s in enumerate(steps):
             if s == 'clear':
                 continue
-            _, T, pre, body, term = s
             def put(ns):
                 return [debug, steps[:i] + [ns] + steps[i + 1:]]
+            if s[0] == 'setsig':
+                if s[2] > 0:
+                    yield put(['setsig', s[1], s[2] - 1])
+                if s[1] > 0:
+                    yield put(['setsig', s[1] - 1, s[2]])
+                continue
+            _, T, pre, body, term = s
+            if T == 'neg':
+                for j in range(len(pre)):
+                    yield put(['run', T, pre[:j] + pre[j + 1:], body, term])
+                if body:
+                    yield put(['run', T, pre, [], term])
+                if term != ['ret', 0]:
+                    yield put(['run', T, pre, body, ['ret', 0]])
+                continue
             for j in range(len(pre)):
                 yield put(['run', T, pre[:j] + pre[j + 1:], body, term])
             for j in range(len(body)):
